@@ -1,4 +1,9 @@
-"""C11 constants/tables re-extracted from /repo on every run (see gen/params.py)."""
+"""C11 constants/tables. The values that enter params_ok_now are PROBED from the compiled code
+(harness/c11.cc --params -> coq/C11/ParamsProbe.v, written by props/c11.py), so that a refactor
+of the source text cannot break the obligation. ENTRIES (regex on the source, feeding
+coq/C11/ParamsGen.v) is therefore empty; CROSSCHECK keeps the old anchored regexes as an optional
+cross-check: a regex that matches and disagrees with the probe is noted in the evidence, a regex
+that does not match is ignored."""
 import re
 
 _TAB = r"choke_queue::m_heuristics_list\[HEURISTICS_MAX_SIZE\] = \{(.*?)\n\};"
@@ -18,11 +23,11 @@ def _nrows(m):
 
 
 F = "src/torrent/download/choke_queue.cc"
-ENTRIES = [("c11_heur_rows", F, _TAB, "N", _nrows)]
+CROSSCHECK = [("c11_heur_rows", F, _TAB, "N", _nrows)]
 for i in range(4):
-    ENTRIES.append(("c11_choke_w%d" % i, F, _TAB, "list N", _row(i, 0)))
-    ENTRIES.append(("c11_unchoke_w%d" % i, F, _TAB, "list N", _row(i, 1)))
-ENTRIES += [
+    CROSSCHECK.append(("c11_choke_w%d" % i, F, _TAB, "list N", _row(i, 0)))
+    CROSSCHECK.append(("c11_unchoke_w%d" % i, F, _TAB, "list N", _row(i, 1)))
+CROSSCHECK += [
     ("c11_order_base", "src/torrent/download/choke_queue.h", r"order_base = \((1 << \d+)\);", "N"),
     ("c11_order_max_size", "src/torrent/download/choke_queue.h", r"order_max_size = (\d+);", "N"),
     ("c11_requeue_guard_s", F, r"set_queued\(PeerConnectionBase\* pc, choke_status\* base\).*?time_last_choke\(\) \+ (\d+)s < this_thread::cached_time\(\)", "N"),
@@ -30,3 +35,5 @@ ENTRIES += [
     ("c11_global_max_cap", "src/torrent/download/resource_manager.cc", r"set_max_upload_unchoked\(unsigned int m\) \{\s*if \(m > \((1 << \d+)\)\)", "N"),
     ("c11_balance_cap", F, r"std::min\(m_maxUnchoked, uint32_t\{1\} << (\d+)\)", "N"),
 ]
+
+ENTRIES = []
